@@ -88,9 +88,21 @@ theorem reach_const_loop (P : Val → Prop) (sc : Scope) (ρ : Val) (h : Reach P
     simp only [eval] at h1 h2
     simp [setSym, h1, h2]
 
-/-! #### F2: `(i - 3) % 8` for `i ∈ [0, 4)` -/
+/-! #### the PRE-FIX `modulo_simplification` (before commit d86c98ae, finding F2): why `0 <= e` must be asked -/
 
-/-- `-3 + 1 * i`, the numerator `modulo_simplification` asks about -/
+/-- `modulo_simplification` as it was before the fix: asks the range analysis only for `new_lhs < m` -/
+def modSimpPreFix (O : Oracle) (lhs : Expr) (m : Int) : Option Expr :=
+  match getNormalized lhs with
+  | none => none
+  | some (c, nl) =>
+    let nl' := nl.filter (fun t => t.1 % m ≠ 0)
+    if nl'.isEmpty then some (.const (c % m))
+    else
+      let c' := if c % m = 0 then 0 else c
+      let newLhs := gen c' nl'
+      if O newLhs .lt m then some newLhs else some (.bin .mod newLhs (.const m))
+
+/-- `-3 + 1 * i`, the numerator `modulo_simplification` asks about for `(i - 3) % 8` -/
 def wTarget : Expr := .bin .add (.const (-3)) (.bin .mul (.const 1) (.var wi))
 
 /-- an oracle that answers exactly one query, truthfully: in `for i in seq(0,4)`, `-3 + i < 8` -/
@@ -105,7 +117,7 @@ theorem wOracle_sound : ∀ sc, (wOracle sc).Sound (Reach (fun _ => True) sc) :=
   simp only [Cmp.holds, wTarget, eval, evalOp]
   omega
 
-/-- `for i in seq(0, 4): x[(i - 3) % 8]` -/
+/-- `for i in seq(0, 4): x[(i - 3) % 8]` — the old F2 witness; the fixed code leaves the `%` in place -/
 def wProgF2 : Block :=
   .cons (.loop wi (.const 0) (.const 4)
     (.cons (.obs [.bin .mod (.bin .sub (.var wi) (.const 3)) (.const 8)]) .nil)) .nil
@@ -121,9 +133,6 @@ def noOracle : OracleS := fun _ _ _ _ => false
 
 theorem noOracle_sound (P : Val → Prop) : ∀ sc, (noOracle sc).Sound (Reach P sc) := by
   intro sc e op c h; cases h
-
-theorem noOracle_modNonNeg (P : Val → Prop) : ∀ sc, (noOracle sc).ModNonNeg (Reach P sc) := by
-  intro sc e m h; cases h
 
 /-- `for i in seq(0,4): if i == 0: for i' in seq(0,8): x[i']`  (both iterators are named `i`) -/
 def wProgF14 : Block :=
@@ -161,13 +170,6 @@ theorem xOracle_sound : ∀ sc, (xOracle sc).Sound (Reach (fun ρ => 1 ≤ ρ.sy
   cases h with
   | inl h => obtain ⟨rfl, rfl⟩ := h; simp only [Cmp.holds, xTarget, eval, evalOp]; omega
   | inr h => obtain ⟨rfl, rfl⟩ := h; simp only [Cmp.holds, xTarget, eval, evalOp]; omega
-
-theorem xOracle_modNonNeg : ∀ sc, (xOracle sc).ModNonNeg (Reach (fun ρ => 1 ≤ ρ.sym wn) sc) := by
-  intro sc e m h ρ hR
-  simp only [xOracle, Bool.and_eq_true, Bool.or_eq_true, decide_eq_true_eq] at h
-  obtain ⟨⟨rfl, rfl⟩, _⟩ := h
-  have := reach_const_loop _ _ _ hR wi 0 4 [] rfl
-  simp only [xTarget, eval, evalOp]; omega
 
 /-- `for i in seq(0,4): x[(i + 8) % 8, (8*i + n - n) / 8]; if n == 4: x[n / 4 + n % 4] else: for j in seq(2,2): x[i]` -/
 def xProg : Block :=
